@@ -23,6 +23,11 @@ EZ_STRINGS = [
     "{[#A]}.{#A=F/C=C/F}",
     "{[#A]}.{#A=F/C=C\\F}",
     "{[#A][#B]}.{#A=CC(/Cl)=C(\\F)C[$],#B=[$]CC}",
+    # stereo double bonds inside rings (the cis/trans correction then works on a ring bond)
+    "{[#A]}.{#A=C1CCC/C=C\\CC1}",
+    "{[#A]}.{#A=C1CC/C=C\\C1}",
+    "{[#A]}.{#A=C1CCCCC/C=C/CCC1}",
+    "{[#A][#B]}.{#A=C1CCC/C=C\\CC1[$],#B=[$]CC}",
 ]
 CG_STRINGS = [
     "{[#A][#B].[#C][#D]}",
@@ -103,13 +108,16 @@ def generate(run_seed, prop, tier="quick"):
     for _ in range(rng.randint(1, 4)):
         roll = rng.random()
         if roll < 0.7 or not ops:
-            ops.append({"op": "layout", "bond": rng.choice([1, 1, 0.35, 2.5, 1.54, 10.0, 0.01, 1e-4, 750.0, 3]),
+            ops.append({"op": "layout", "bond": rng.choice([1, 1, 0.35, 2.5, 1.54, 10.0, 0.01, 1e-4, 750.0, 3, 1.5e-10, 1e-8, 1e6]),
                         "np_seed": rng.randrange(2 ** 32) if rng.random() < 0.65 else None,
                         "relabel": rng.choice(["none", "none", "shuffle", "strings", "offset"]),
                         "relabel_seed": rng.randrange(2 ** 30),
                         "align": rng.choice([None, None, [1.0, 0.0], [0.0, 1.0], [1.0, 1.0]])})
-        elif roll < 0.85:
+        elif roll < 0.80:
             ops.append({"op": "foreign_rng", "seed": rng.randrange(2 ** 32), "draws": rng.randint(0, 7)})
+        elif roll < 0.88:
+            # the caller edits the same graph object in place between two layouts
+            ops.append({"op": "mutate_graph", "how": rng.choice(["rewire", "rewire", "relabel_inplace"]), "seed": rng.randrange(2 ** 30)})
         else:
             ops.append({"op": "relabel_pair", "bond": rng.choice([1, 0.35, 2.5]), "np_seed": rng.randrange(2 ** 32),
                         "relabel": rng.choice(["shuffle", "strings", "offset"]), "relabel_seed": rng.randrange(2 ** 30)})
@@ -147,8 +155,9 @@ def _relabel(graph, how, seed):
     return out, mapping
 
 
-def _check(graph, pos, bond, seq, violations, label):
+def _check(graph, pos, bond, seq, violations, label, edges=None):
     import numpy as np
+    edges = list(graph.edges) if edges is None else edges
     if set(pos) != set(graph.nodes) or len(pos) != len(graph):
         violations.append({"oracle": "C19.positions", "event": seq,
                            "detail": "%s: layout returned %d positions for %d nodes" % (label, len(pos), len(graph))})
@@ -160,7 +169,7 @@ def _check(graph, pos, bond, seq, violations, label):
                                "detail": "%s: node %r has position %r (not a finite 2-vector)" % (label, node, p)})
             return None
     dists = []
-    for u, v in graph.edges:
+    for u, v in edges:
         d = float(np.linalg.norm(np.asarray(pos[u], dtype=float) - np.asarray(pos[v], dtype=float)))
         dists.append(d)
         if d <= 1e-6 * bond:
@@ -224,18 +233,40 @@ def run_history(scenario):
                 kwargs = {"default_bond": op["bond"]}
                 if op.get("align"):
                     kwargs["align_with"] = np.array(op["align"])
+                edges_before = list(work.edges)
                 pos = vespr_layout(work, **kwargs)
-                _check(work, pos, float(op["bond"]), seq, violations, "layout(relabel=%s)" % op["relabel"])
+                _check(work, pos, float(op["bond"]), seq, violations, "layout(relabel=%s)" % op["relabel"], edges=edges_before)
                 event["out"] = "ok"
                 event["dig"] = sha(jdump(sorted([repr(k), [round(float(x), 6) for x in np.asarray(v, dtype=float)]] for k, v in pos.items())))
                 stats["layouts"] = stats.get("layouts", 0) + 1
+            elif op["op"] == "mutate_graph":
+                import random
+                mrng = random.Random(op["seed"])
+                has_ez = any("ez_isomer" in graph.nodes[n] for n in graph.nodes)
+                if op["how"] == "rewire" and not has_ez and len(graph) >= 4:
+                    leaves = [n for n in graph.nodes if graph.degree(n) == 1]
+                    if leaves:
+                        leaf = mrng.choice(sorted(leaves, key=repr))
+                        old = next(iter(graph[leaf]))
+                        others = [n for n in sorted(graph.nodes, key=repr) if n not in (leaf, old)]
+                        new = mrng.choice(others)
+                        data = dict(graph.edges[leaf, old])
+                        graph.remove_edge(leaf, old)
+                        graph.add_edge(leaf, new, **data)
+                        stats["fault:graph-edited-between-layouts:fired"] = stats.get("fault:graph-edited-between-layouts:fired", 0) + 1
+                elif op["how"] == "relabel_inplace" and not has_ez and all(isinstance(n, int) for n in graph.nodes):
+                    shift = max(graph.nodes) + 1 + mrng.randrange(5)
+                    nx.relabel_nodes(graph, {n: n + shift for n in list(graph.nodes)}, copy=False)
+                    stats["fault:graph-edited-between-layouts:fired"] = stats.get("fault:graph-edited-between-layouts:fired", 0) + 1
+                event["out"] = "ok"
             elif op["op"] == "relabel_pair":
                 # same generator state, two labellings: the three facts must hold for both
                 for variant in ("none", op["relabel"]):
                     work, mapping = _relabel(graph, variant, op["relabel_seed"])
                     np.random.seed(op["np_seed"])
+                    edges_before = list(work.edges)
                     pos = vespr_layout(work, default_bond=op["bond"])
-                    _check(work, pos, float(op["bond"]), seq, violations, "relabel pair / %s" % variant)
+                    _check(work, pos, float(op["bond"]), seq, violations, "relabel pair / %s" % variant, edges=edges_before)
                     stats["layouts"] = stats.get("layouts", 0) + 1
                 event["out"] = "ok"
             else:
